@@ -5,6 +5,13 @@ from ..interp_prop import InterpProp
 
 class C02(InterpProp):
     id = 'C02'
+    # observables compared with the model (see InterpProp.normalize)
+    cmp_eff = ()
+    cmp_step = ('entered', 'exited')
+    cmp_slot = ('config', 'final', 'legal')
+    cmp_callbacks = False
+    cmp_err = 'class'
+    cmp_time = False
     quick_cases = 1000
     thorough_cases = 40000
     n_ops = 40
